@@ -800,6 +800,31 @@ pub fn family(out: &mut Out, family: &str, tier: &Tier, rng: &mut Rng) {
     }
     for i in 0..n {
         let c = match family {
+            "peg" if i % 12 == 10 => {
+                // a parser that stops at a token it only looked at (or did not look at), directly
+                // followed by a sub-parse whose first step reads the stream under another filter:
+                // whether a look-ahead is buffered when the sub-parse begins must not be observable
+                let stopper = match rng.below(5) {
+                    0 => G::SeqCount(vec![0, 0]),
+                    1 => G::Maybe(Box::new(G::One(1))),
+                    2 => G::SeqCount(vec![0, 1]),
+                    3 => G::Both(Box::new(G::One(0)), Box::new(G::SeqCount(vec![1]))),
+                    _ => G::Repeat(0, 0, Some(2), Box::new(G::One(0))),
+                };
+                let inner = match rng.below(3) {
+                    0 => G::Unfiltered(Box::new(G::Maybe(Box::new(G::One(12))))),
+                    1 => G::FilterWith(0, Box::new(G::Any(vec![12, 1, 0]))),
+                    _ => G::Unfiltered(Box::new(G::Any(vec![12, 1, 0, 2]))),
+                };
+                let g = G::Both(Box::new(stopper), Box::new(G::Sub(Box::new(inner))));
+                let mut c = mk(String::new(), rng, g);
+                let mut text = String::new();
+                for _ in 0..rng.below(3) { text.push('a'); if rng.chance(1, 3) { text.push(' '); } }
+                text.push_str(*rng.pick(&[" ", "  ", "", "\t", " \n"]));
+                text.push_str(*rng.pick(&["b", "c", "a", "", "b a"]));
+                c.text = text; c.le = LineEnding::Lf; c.tab = 4; c.filter = Some(1);
+                c
+            }
             "peg" if i % 12 == 11 => {
                 // the same primitive parser objects applied at several places of one text: an ordered
                 // choice whose first alternative may fail after having matched a prefix, repeated
@@ -813,6 +838,33 @@ pub fn family(out: &mut Out, family: &str, tier: &Tier, rng: &mut Rng) {
                 mk(token_text(rng, 9, &[]), rng, g)
             }
             "peg" => { let d = 1 + rng.below(3); let g = gen_peg(rng, d); mk(token_text(rng, 7, &[]), rng, g) }
+            "rep" if i % 16 == 14 => {
+                // one repetition parser object applied to several `;`-terminated groups, some too short for
+                // its lower bound (it fails after having accepted items; an alternative takes the group)
+                // and some long enough: state kept across applications of the object shows as a wrong
+                // value in a later group
+                let (lo, hi) = (2 + rng.below(2), if rng.chance(1, 2) { None } else { Some(4) });
+                let grp = match rng.below(3) {
+                    0 => G::Intersperse(rng.below(2) as u8, lo, hi, Box::new(G::One(0)), Box::new(G::One(4))),
+                    1 => G::Repeat(rng.below(2) as u8, lo, hi, Box::new(G::Any(vec![0, 1]))),
+                    _ => G::IntersperseDefault(lo, hi, Box::new(G::One(0)), 4),
+                };
+                let with_sep = !matches!(grp, G::Repeat(..));
+                let alt = G::Either(Box::new(grp), Box::new(G::Discard(Box::new(G::Repeat(0, 0, Some(3), Box::new(G::Any(vec![0, 1, 4])))))));
+                let g = G::Repeat(0, 0, None, Box::new(G::Both(Box::new(alt), Box::new(G::One(5)))));
+                let mut c = mk(String::new(), rng, g);
+                let mut text = String::new();
+                for _ in 0..2 + rng.below(3) {
+                    let n = if rng.chance(1, 2) { 1 + rng.below(lo - 1) } else { lo + rng.below(2) };
+                    for k in 0..n {
+                        if k > 0 && with_sep { text.push_str(if rng.chance(1, 4) { " , " } else { "," }); }
+                        text.push('a');
+                    }
+                    text.push_str(*rng.pick(&[";", "; ", " ;"]));
+                }
+                c.text = text; c.le = LineEnding::Lf; c.tab = 4; c.filter = Some(1);
+                c
+            }
             "rep" if i % 16 == 15 => {
                 // repetitions whose items recover through the sink (bracketed or recovering items):
                 // a malformed-but-recoverable item at an optional position must still be taken
@@ -976,6 +1028,33 @@ pub fn family(out: &mut Out, family: &str, tier: &Tier, rng: &mut Rng) {
                 c
             }
             "twice" => { let d = rng.below(3); let g = gen_committed(rng, d); let mut c = mk(token_text(rng, 9, &[',', ';', '[', ']', '(', ')']), rng, g); c.sink = i % 2 == 0; c.nctx = if rng.chance(1, 3) { 1 + rng.below(4) } else { 0 }; c }
+            "scoped" if i % 8 == 5 => {
+                // a filter scope around a parser that starts (or ends) a recovery, then a sibling that
+                // depends on the recovery state the scope's parser left behind
+                let rec = match rng.below(2) {
+                    0 => G::Recover(1, Box::new(G::One(0)), Rec::After(5)),
+                    _ => G::Recover(rng.below(2) as u8, Box::new(G::Both(Box::new(G::One(0)), Box::new(G::One(1)))), Rec::After(5)),
+                };
+                let scoped = match rng.below(4) {
+                    0 => G::FilterWith(*rng.pick(&[1u32, 3]), Box::new(rec)),
+                    1 => G::Unfiltered(Box::new(rec)),
+                    2 => G::FilterWith(1, Box::new(G::Stabilize(Box::new(G::One(0))))),
+                    _ => rec,
+                };
+                let pre = if rng.chance(1, 2) { Some(G::Recover(1, Box::new(G::Seq(vec![2, 2])), Rec::After(5))) } else { None };
+                let later = G::Either(Box::new(G::Stabilize(Box::new(G::One(1)))), Box::new(G::Maybe(Box::new(G::One(3)))));
+                let mut g = G::Both(Box::new(scoped), Box::new(G::Both(Box::new(G::Probe(5)), Box::new(G::Both(Box::new(later), Box::new(G::Probe(9)))))));
+                if let Some(p) = pre { g = G::Both(Box::new(p), Box::new(g)); }
+                let g = G::Both(Box::new(G::Probe(0)), Box::new(g));
+                let mut c = mk(String::new(), rng, g);
+                let mut text = String::from(*rng.pick(&["", "c ; ", "c d ; "]));
+                for _ in 0..2 + rng.below(4) {
+                    text.push_str(*rng.pick(&["a ", "d ", "a ; ", "d ; ", "c ", "; ", "b ", "b ; ", "a"]));
+                }
+                c.text = text; c.le = LineEnding::Lf; c.tab = 4; c.filter = Some(1);
+                c.sink = rng.chance(4, 5); c.nctx = rng.below(3);
+                c
+            }
             "scoped" if i % 8 == 6 => {
                 // one `raw` parser object applied under different contexts: `stabilize` runs its first
                 // attempt in the caller's context and its retries without the sink.  The lexer arrives
